@@ -27,11 +27,11 @@ MAX_S = {"quick": 900, "thorough": 7200}
 
 FEATS = dict(
     grids=["4x6h", "5xh", "3xd_spring", "12h_partial", "3xMS", "4x6h_d", "4x6h_min", "4x6h_cet", "7xh_autumn"],
-    price_pairs=S.PRICE_PAIRS[:2],
+    price_pairs=[S.PRICE_PAIRS[0], S.PRICE_PAIRS[3]],
     bases=["one", "two"],
     extras=["mc", "dem"],
     caps=1, extra_costs=1, wacc=1, window=1, takes=1,
-    sto_eff=1, sto_costs=1, sto_inflow=1, sto_levels=1, sto_two_nodes=1,
+    sto_eff=1, sto_costs=1, sto_inflow=1, sto_levels=1, sto_two_nodes=1, sto_size0=1,
     tr_dir=1, tr_eff=1, tr_costs=1, tr_takes=1, mc_factors=1,
 )
 
